@@ -7,6 +7,7 @@ import DropletsVerif.Driver.C06
 import DropletsVerif.Driver.C02
 import DropletsVerif.Driver.C18
 import DropletsVerif.Driver.C19
+import DropletsVerif.Driver.C14
 
 open DV.Drv
 
@@ -19,6 +20,8 @@ def dispatch (line : String) : String :=
   | "c02" :: args => handleC02 args
   | "c18" :: args => handleC18 args
   | "c19" :: args => handleC19 args
+  | "c14" :: args => handleC14 args
+  | "c15" :: args => handleC15 args
   | _ => "bad-op"
 
 partial def loop (h : IO.FS.Stream) (out : IO.FS.Stream) : IO Unit := do
